@@ -211,7 +211,7 @@ def main(ck):
     wdir = os.path.join(ck.work, "srv")
     if getattr(ck, "replay", None):
         return replay(ck, binp, srv, conf, wdir, port)
-    nds, ncases = (4, 80) if ck.tier == "quick" else (24, 250)
+    nds, ncases = (4, 120) if ck.tier == "quick" else (24, 250)
     ck.log("harness: %d data sets x %d cases" % (nds, ncases))
     cdir = os.path.join(ck.verif, "corpus", PID)
     corpus = sorted(os.path.join(cdir, f) for f in os.listdir(cdir) if f.endswith(".json")) if os.path.isdir(cdir) else []
